@@ -19,6 +19,9 @@ pub struct Obs {
     pub pulled: Vec<usize>,
     pub opened_stdin: bool,
     pub panic_msg: String,
+    /// C14: number of `read` calls made on stdin AFTER the output already held `--take` rows
+    /// (rows = line feeds on stdout; only meaningful for one-line JSON output without header)
+    pub late_reads: usize,
 }
 
 pub struct FaultyWriter {
@@ -59,12 +62,21 @@ pub struct ScriptedReader {
     pulled: Arc<AtomicUsize>,
     cap: usize,
     pub overrun: Arc<AtomicBool>,
+    /// C14: the stdout buffer, the row limit, and the counter of reads made after the limit was reached
+    watch: Option<(Arc<std::sync::Mutex<Vec<u8>>>, usize)>,
+    late_reads: Arc<AtomicUsize>,
 }
 
 impl Read for ScriptedReader {
     fn read(&mut self, buf: &mut [u8]) -> std::io::Result<usize> {
         if buf.is_empty() {
             return Ok(0);
+        }
+        if let Some((out, limit)) = &self.watch {
+            let rows = out.lock().unwrap().iter().filter(|b| **b == b'\n').count();
+            if rows >= *limit {
+                self.late_reads.fetch_add(1, Ordering::SeqCst);
+            }
         }
         if let Some(f) = self.fail_at {
             if self.pos >= f {
@@ -194,6 +206,15 @@ pub fn run_rust(case: &Case, scratch: &Scratch) -> Obs {
     let chunks = case.chunks.clone();
     let endless = case.endless.clone();
     let (o2, p2, ov2) = (opened.clone(), pulled.clone(), overrun.clone());
+    let late = Arc::new(AtomicUsize::new(0));
+    let late2 = late.clone();
+    // C14 watch: only for `--take T` (T >= 1) with line-framed JSON rows on an in-process stdout
+    let watch = match (case.spec.take, case.endless.is_some()) {
+        (Some(t), true) if t >= 1 && case.spec.style.is_none() && case.spec.jstyle.as_deref() != Some("pretty")
+            && case.spec.rowsep.is_none() && case.spec.group.is_none() && case.spec.sorts.is_empty() && case.spec.on_error.as_deref() != Some("stdout") =>
+            Some((out_buf.clone(), t as usize)),
+        _ => None,
+    };
     let factory: Box<dyn Fn() -> ScriptedReader> = Box::new(move || {
         o2.store(true, Ordering::SeqCst);
         ScriptedReader {
@@ -206,6 +227,8 @@ pub fn run_rust(case: &Case, scratch: &Scratch) -> Obs {
             pulled: p2.clone(),
             cap: ENDLESS_CAP,
             overrun: ov2.clone(),
+            watch: watch.clone(),
+            late_reads: late2.clone(),
         }
     });
     let result = catch_unwind(AssertUnwindSafe(|| jawk::go(cli, out.clone(), err.clone(), factory)));
@@ -228,6 +251,7 @@ pub fn run_rust(case: &Case, scratch: &Scratch) -> Obs {
     obs.err = err_buf.lock().unwrap().clone();
     obs.opened_stdin = opened.load(Ordering::SeqCst);
     obs.pulled = vec![pulled.load(Ordering::SeqCst)];
+    obs.late_reads = late.load(Ordering::SeqCst);
     if overrun.load(Ordering::SeqCst) {
         obs.res = format!("{}+overrun", obs.res);
     }
